@@ -84,7 +84,8 @@ add("C07", "E1-envx", "exploration",
     E1NOTE + "; the status table is parsed from minimize.__doc__", "DESIGN.md 5/C07")
 add("C08", "E1-envx", "fault_enumeration",
     "fault enumeration: every NaN/+-inf/huge answer at every evaluation index of every root problem (deviation bound "
-    "1, bound 2 on a slice), region faults, degenerate data, special boxes x constraints x callbacks, malformed calls",
+    "1, bound 2 on a slice; also with debug=True), region faults, degenerate data, radius underflow, special boxes x "
+    "constraints x callbacks, malformed calls, and the 3-/4-way covering arrays over 25 call features (mc/cover.py)",
     "Every enumerated faulty execution must return a well-formed OptimizeResult (or raise exactly ValueError/TypeError "
     "for malformed arguments), hand only finite barrier-clipped values to the models and never label a NaN result "
     "successful; hangs are caught by a per-run watchdog.",
@@ -112,7 +113,8 @@ add("C04", "E5-lattice", "exploration",
     "exact reference mc/refqp.py (fractions.Fraction); default options", "DESIGN.md 5/C04")
 add("C15", "E5-lattice", "exploration",
     "bounded-exhaustive enumeration of a Cartesian input lattice (bound patterns x gradients x Hessians x scalings "
-    "over twelve decades x constraint rows x improve_tcg) for the five subproblem solvers",
+    "over twelve decades x constraint rows x improve_tcg; dyadic lattice, non-dyadic copy, near-normal gradients, rows "
+    "x 2^40, the solvers' own debug postconditions) for the five subproblem solvers",
     "Bounds exactly, radius up to 1e-8 relative, linear (in)equalities up to 1e-8 relative, finiteness and absence of "
     "exceptions are checked on every lattice point, including every listed degeneracy.",
     E5NOTE, "DESIGN.md 5/C15")
@@ -138,8 +140,8 @@ add("C19", "E5-lattice", "exploration",
 
 add("C10", "E1-envx", "exploration",
     "metamorphic/differential enumeration of pairs of executions (restatements of the same problem) over the "
-    "alphabet, bit-level comparison of evaluation sequences and results; internal linear residuals checked at every "
-    "evaluated point",
+    "alphabet and over every cross-feature case of the covering arrays to which a restatement applies, bit-level "
+    "comparison of evaluation sequences and results; internal linear residuals checked at every evaluated point",
     "For every enumerated pair the two runs must evaluate the same points in the same order and return the same "
     "result; no hand-written expected values are involved.",
     E1NOTE + "; the counterpart statements are built by the harness (mc/props/c10.py)", "DESIGN.md 5/C10")
@@ -158,20 +160,22 @@ E2NOTE = ("states de-duplicated on the exact rational reference state; real obje
 add("C12", "E2-opseq + E1-envx", "model_checking",
     "explicit-state breadth-first search over update/shift/reset operation sequences on a real Models object "
     "(every index x every lattice point), enabled by exact poisedness, with a lock-step exact reference; monitors on "
-    "real runs",
+    "real runs (alphabet and covering arrays)",
     "After every transition the three models must reproduce the recorded values (tolerance eps*kappa), the constraint "
     "model fed the objective's data must be bit-identical to the objective model, and the stored points/values must "
     "be the supplied ones; in real runs the same after every wrapped call.",
     E2NOTE, "DESIGN.md 5/C12")
-add("C13", "E2-opseq", "model_checking",
+add("C13", "E2-opseq + E1-envx", "model_checking",
     "same breadth-first search as C12; every new state's models are compared with the exact rational "
-    "least-Frobenius-norm / symmetric-Broyden recursion at probe points, with each other's views and across shifts",
+    "least-Frobenius-norm / symmetric-Broyden recursion at probe points, with each other's views and across shifts; "
+    "in real runs (covering arrays) every model operation is compared with one exact step from the stored state",
     "Value, gradient and Hessian of each model must agree with the exact recursion within a rounding budget "
     "accumulated along the history; hess/hess_prod/curv/grad must describe one quadratic; a shift must not change it.",
     E2NOTE, "DESIGN.md 5/C13")
-add("C14", "E2-opseq", "model_checking",
+add("C14", "E2-opseq + E1-envx", "model_checking",
     "same state space; for every reached poised state, every candidate within a few radii and every index, "
-    "Models.determinants (both call forms) against the exact determinant ratio",
+    "Models.determinants (both call forms) against the exact determinant ratio; in real runs (covering arrays) every "
+    "call the solver itself makes, against the exact ratio of the run's own interpolation set",
     "Each ratio must equal the exact det(W_new)/det(W_old) within eps*kappa times the exact term magnitudes; the "
     "reference itself is cross-checked against directly computed exact determinants.",
     E2NOTE, "DESIGN.md 5/C14")
